@@ -187,38 +187,26 @@ Proof. vm_compute. reflexivity. Qed.
 Print Assumptions C07_connect_nonvacuous.
 
 (* ---- send handles ---- *)
+(* uv_write2 and uv_try_write2 (current code, since /repo c5357ca) validate the send handle:
+   UV_EINVAL on a non-ipc stream, UV_EBADF for a handle without descriptor, and success only
+   on an ipc pipe with a handle that has a descriptor *)
 Theorem C07_send_handle_checked :
-  forall s h, w_fd s >= 0 -> w_writable s = true ->
-  (w_pipe s && w_ipc s = false -> write2 s (Some h) = UV_EINVAL_) /\
-  (w_pipe s && w_ipc s = true -> h_fd h < 0 -> write2 s (Some h) = UV_EBADF) /\
-  (write2 s (Some h) = 0 -> w_pipe s && w_ipc s = true /\ h_fd h >= 0).
-Proof. exact write2_checked. Qed.
+  (forall s h, w_fd s >= 0 -> w_writable s = true ->
+     (w_pipe s && w_ipc s = false -> write2 s (Some h) = UV_EINVAL_) /\
+     (w_pipe s && w_ipc s = true -> h_fd h < 0 -> write2 s (Some h) = UV_EBADF) /\
+     (write2 s (Some h) = 0 -> w_pipe s && w_ipc s = true /\ h_fd h >= 0)) /\
+  (forall s h sys, w_fd s >= 0 -> w_writable s = true -> w_connecting s = false -> w_wqs s = 0 ->
+     (w_pipe s && w_ipc s = false -> uv_try_write2 s (Some h) sys = UV_EINVAL_) /\
+     (w_pipe s && w_ipc s = true -> h_fd h < 0 -> uv_try_write2 s (Some h) sys = UV_EBADF) /\
+     (uv_try_write2 s (Some h) sys >= 0 -> w_pipe s && w_ipc s = true /\ h_fd h >= 0)).
+Proof. split; [exact write2_checked|exact try_write2_fixed_checked]. Qed.
 Print Assumptions C07_send_handle_checked.
 
-(* the same statement for uv_try_write2 fails on the pinned tree: it passes NULL to
-   uv__check_before_write (DESIGN section 3, item 5) *)
+(* history: before c5357ca uv_try_write2 passed NULL to uv__check_before_write and the
+   statement failed (DESIGN section 3, item 5); reverting the commit makes the
+   correspondence check fail on the cases of corpus/C07/w.txt *)
 Theorem C07_try_write2_unchecked_refuted :
   exists s h sys, w_fd s >= 0 /\ w_writable s = true /\ w_connecting s = false /\ w_wqs s = 0 /\
     w_pipe s && w_ipc s = false /\ try_write2 false s (Some h) sys = 1.
 Proof. exact try_write2_unchecked_refuted. Qed.
 Print Assumptions C07_try_write2_unchecked_refuted.
-
-Theorem C07_try_write2_partial :
-  forall s sh sys,
-  (w_connecting s = true \/ w_wqs s <> 0 -> try_write2 false s sh sys = UV_EAGAIN_) /\
-  (w_connecting s = false -> w_wqs s = 0 -> w_fd s < 0 -> try_write2 false s sh sys = UV_EBADF) /\
-  (w_connecting s = false -> w_wqs s = 0 -> w_fd s >= 0 -> w_writable s = false ->
-     try_write2 false s sh sys = UV_EPIPE) /\
-  (forall h, sh = Some h -> h_closing h = true -> try_write2 false s sh sys < 0).
-Proof. exact try_write2_partial. Qed.
-Print Assumptions C07_try_write2_partial.
-
-(* with notes/C07_fix_try_write2.diff (send_handle passed to uv__check_before_write)
-   the full statement holds *)
-Theorem C07_try_write2_checked_fixed :
-  forall s h sys, w_fd s >= 0 -> w_writable s = true -> w_connecting s = false -> w_wqs s = 0 ->
-  (w_pipe s && w_ipc s = false -> try_write2 true s (Some h) sys = UV_EINVAL_) /\
-  (w_pipe s && w_ipc s = true -> h_fd h < 0 -> try_write2 true s (Some h) sys = UV_EBADF) /\
-  (try_write2 true s (Some h) sys >= 0 -> w_pipe s && w_ipc s = true /\ h_fd h >= 0).
-Proof. exact try_write2_fixed_checked. Qed.
-Print Assumptions C07_try_write2_checked_fixed.
